@@ -400,7 +400,7 @@ func (c *Check) scratchReset(rule string) {
 		return
 	}
 	n := 0
-	for _, b := range pre.Blocks {
+	for _, b := range helperBlocks(pre, 3) {
 		for _, ins := range b.Instrs {
 			st, ok := ins.(*ssa.Store)
 			if !ok {
@@ -419,14 +419,17 @@ func (c *Check) scratchReset(rule string) {
 				continue
 			}
 			T, F := fieldOf(fa.X.Type(), fa.Field)
+			if !isMessageStruct(p, fa.X.Type()) {
+				continue // a helper object built for this serialization (e.g. the string table), not part of the profile
+			}
 			n++
 			key := "reset:" + T + "." + F
 			// a store of nil / a fresh slice into the same field of the same object dominates
 			ok2 := false
-			for _, b2 := range pre.Blocks {
+			for _, b2 := range helperBlocks(pre, 3) {
 				for _, i2 := range b2.Instrs {
 					st2, isSt := i2.(*ssa.Store)
-					if !isSt || st2 == st {
+					if !isSt || st2 == st || st2.Parent() != st.Parent() {
 						continue
 					}
 					fa2, isFA := st2.Addr.(*ssa.FieldAddr)
@@ -466,7 +469,7 @@ func (c *Check) unitPadding(rule string) {
 		return
 	}
 	var publish *ssa.Store
-	for _, b := range post.Blocks {
+	for _, b := range helperBlocks(post, 3) {
 		for _, ins := range b.Instrs {
 			if st, ok := ins.(*ssa.Store); ok {
 				if fa, ok := st.Addr.(*ssa.FieldAddr); ok {
@@ -484,7 +487,7 @@ func (c *Check) unitPadding(rule string) {
 	units := publish.Val
 	// the value lists the units must match: the map published as Sample.NumLabel
 	var labels ssa.Value
-	for _, b := range post.Blocks {
+	for _, b := range helperBlocks(post, 3) {
 		for _, ins := range b.Instrs {
 			if st, ok := ins.(*ssa.Store); ok {
 				if fa, ok := st.Addr.(*ssa.FieldAddr); ok {
@@ -496,7 +499,7 @@ func (c *Check) unitPadding(rule string) {
 		}
 	}
 	found := false
-	for _, b := range post.Blocks {
+	for _, b := range helperBlocks(post, 3) {
 		for _, ins := range b.Instrs {
 			mu, ok := ins.(*ssa.MapUpdate)
 			if !ok || mu.Map != units {
@@ -787,7 +790,7 @@ func (c *Check) internSymmetry(encTargets map[string]map[string]bool) {
 	// preEncode: X := addString(_, S)
 	preMap := map[string]string{} // "T.X" → "T.S"
 	idPre := map[string]string{}  // "T.X" → "U.ID"
-	for _, b := range pre.Blocks {
+	for _, b := range helperBlocks(pre, 3) {
 		for _, ins := range b.Instrs {
 			st, ok := ins.(*ssa.Store)
 			if !ok {
@@ -819,7 +822,7 @@ func (c *Check) internSymmetry(encTargets map[string]map[string]bool) {
 		}
 	}
 	// element stores: s.locationIDX[i] = loc.ID
-	for _, b := range pre.Blocks {
+	for _, b := range helperBlocks(pre, 3) {
 		for _, ins := range b.Instrs {
 			st, ok := ins.(*ssa.Store)
 			if !ok {
@@ -841,7 +844,7 @@ func (c *Check) internSymmetry(encTargets map[string]map[string]bool) {
 	}
 	// postDecode: S, err = getString(table, &X, err)
 	postMap := map[string]string{}
-	for _, b := range post.Blocks {
+	for _, b := range helperBlocks(post, 3) {
 		for _, ins := range b.Instrs {
 			st, ok := ins.(*ssa.Store)
 			if !ok {
@@ -911,7 +914,7 @@ func (c *Check) internSymmetry(encTargets map[string]map[string]bool) {
 	for _, lx := range []string{"keyX", "strX", "unitX"} {
 		key := "string:profile.label." + lx
 		inPre := false
-		for _, b := range pre.Blocks {
+		for _, b := range helperBlocks(pre, 3) {
 			for _, ins := range b.Instrs {
 				if st, ok := ins.(*ssa.Store); ok {
 					if fa, ok := st.Addr.(*ssa.FieldAddr); ok {
@@ -923,7 +926,7 @@ func (c *Check) internSymmetry(encTargets map[string]map[string]bool) {
 			}
 		}
 		inPost := false
-		for _, b := range post.Blocks {
+		for _, b := range helperBlocks(post, 3) {
 			for _, ins := range b.Instrs {
 				if call, ok := ins.(*ssa.Call); ok && call.Call.StaticCallee() != nil && call.Call.StaticCallee().Name() == "getString" {
 					if xa, ok := call.Call.Args[1].(*ssa.FieldAddr); ok {
@@ -960,7 +963,7 @@ func (c *Check) internSymmetry(encTargets map[string]map[string]bool) {
 		// postDecode stores into the pointer attribute a value looked up by the scratch id
 		okPost := false
 		want := resolved[x]
-		for _, b := range post.Blocks {
+		for _, b := range helperBlocks(post, 3) {
 			for _, ins := range b.Instrs {
 				st, ok := ins.(*ssa.Store)
 				if !ok {
@@ -1031,7 +1034,7 @@ func (c *Check) internSymmetry(encTargets map[string]map[string]bool) {
 			case full == "profile.Mapping.KernelRelocationSymbol":
 				// derived from File in postDecode
 				derived := false
-				for _, b := range post.Blocks {
+				for _, b := range helperBlocks(post, 3) {
 					for _, ins := range b.Instrs {
 						if stt, ok := ins.(*ssa.Store); ok {
 							if fa, ok := stt.Addr.(*ssa.FieldAddr); ok {
@@ -1146,37 +1149,170 @@ func keyedBy(v ssa.Value, x string, seen map[ssa.Value]bool) bool {
 
 // scratchProducers (R4)
 func (c *Check) scratchProducers() {
-	for _, fn := range []struct{ name, caller string }{{"(*Profile).preEncode", "serialize"}, {"marshal", "serialize"}} {
-		if bad := onlyCalledFrom(c, "profile", fn.name, fn.caller); bad == "" {
-			c.ok("C01-R4", "caller:"+fn.name, "", fn.name+" is only called from "+fn.caller, "single static caller; serialize holds encodeMu around both (C20)")
+	p := c.P
+	sers := c.serializers("C01-R4")
+	if len(sers) == 0 {
+		return
+	}
+	pre := c.anchorFn("C01-R4", "profile", "(*Profile).preEncode")
+	enc := c.anchorFn("C01-R4", "profile", "(*Profile).encode")
+	if pre == nil || enc == nil {
+		return
+	}
+	// who fills and who reads the scratch fields does so inside a serializer's critical section
+	for _, tgt := range []*ssa.Function{pre, enc} {
+		key := "caller:" + fnName(tgt)
+		if bad := c.outsideEncodeLock(tgt, sers); bad == "" {
+			c.ok("C01-R4", key, "", fnName(tgt)+" runs only under Profile.encodeMu", "every call chain reaching it passes through a call made by a serializer (a function that locks encodeMu) while the lock is held")
 		} else {
-			c.bad("C01-R4", "caller:"+fn.name, "", "scratch state is produced outside serialize: "+bad)
+			c.bad("C01-R4", key, "", "scratch state is produced or read outside the serializer's critical section: "+bad)
 		}
 	}
 	// the scratch fields are filled and read inside one critical section
-	if ser := c.anchorFn("C01-R4", "profile", "serialize"); ser != nil {
-		var pre, mar ssa.Instruction
+	for _, ser := range sers {
+		var fill, read ssa.Instruction
 		for _, b := range ser.Blocks {
 			for _, ins := range b.Instrs {
-				if call, ok := ins.(*ssa.Call); ok && call.Call.StaticCallee() != nil {
-					switch call.Call.StaticCallee().Name() {
-					case "preEncode":
-						pre = call
-					case "marshal":
-						mar = call
+				call, ok := ins.(*ssa.Call)
+				if !ok {
+					continue
+				}
+				if fill == nil && callReaches(p, ser, call, pre) {
+					fill = call
+				}
+				if callReaches(p, ser, call, enc) {
+					read = call
+				}
+			}
+		}
+		key := "one-section"
+		if len(sers) > 1 {
+			key += ":" + fnName(ser)
+		}
+		switch {
+		case fill == nil || read == nil:
+			c.undecided("C01-R4", key, p.relFile(ser.Pos()), fnName(ser)+" locks encodeMu but does not both fill (preEncode) and write (encode) the scratch fields")
+		case sameLockSection(ser, fill, read):
+			c.ok("C01-R4", key, p.relFile(read.Pos()), "the scratch fields are read by the encoder in the critical section in which preEncode filled them", "both calls follow one Lock with no Unlock between them")
+		default:
+			c.bad("C01-R4", key, p.relFile(read.Pos()), fnName(ser)+" fills the scratch fields (preEncode) and reads them (encode) in different critical sections: a concurrent Write/Copy of the same profile rebuilds label, id and string tables while they are being written, so the bytes no longer describe the profile")
+		}
+	}
+}
+
+// serializers: the functions of package profile that lock Profile.encodeMu.
+func (c *Check) serializers(rule string) []*ssa.Function {
+	var out []*ssa.Function
+	forAllPkgFuncs(c.P, "profile", func(f *ssa.Function) {
+		for _, b := range f.Blocks {
+			for _, ins := range b.Instrs {
+				call, ok := ins.(*ssa.Call)
+				if !ok || call.Call.StaticCallee() == nil || call.Call.StaticCallee().String() != "(*sync.Mutex).Lock" {
+					continue
+				}
+				if fa, ok := call.Call.Args[0].(*ssa.FieldAddr); ok {
+					if T, F := fieldOf(fa.X.Type(), fa.Field); T == "profile.Profile" && F == "encodeMu" {
+						out = append(out, f)
+						return
 					}
 				}
 			}
 		}
-		switch {
-		case pre == nil || mar == nil:
-			c.undecided("C01-R4", "one-section", c.P.relFile(ser.Pos()), "serialize no longer calls preEncode and marshal")
-		case sameLockSection(ser, pre, mar):
-			c.ok("C01-R4", "one-section", c.P.relFile(mar.Pos()), "the scratch fields are read by marshal in the critical section in which preEncode filled them", "both calls follow one Lock with no Unlock between them")
-		default:
-			c.bad("C01-R4", "one-section", c.P.relFile(mar.Pos()), "serialize fills the scratch fields (preEncode) and reads them (marshal) in different critical sections: a concurrent Write/Copy of the same profile rebuilds label, id and string tables while they are being written, so the bytes no longer describe the profile")
+	})
+	out = dedupFns(out)
+	sortFns(out)
+	if len(out) == 0 {
+		c.undecided(rule, "serializer", "", "no function of package profile locks Profile.encodeMu: the serializer was not found")
+	}
+	return out
+}
+
+// callReaches: the call instruction (in f) calls target or a module function from which
+// target is reachable in the module call graph.
+func callReaches(p *Program, f *ssa.Function, call *ssa.Call, target *ssa.Function) bool {
+	var roots []*ssa.Function
+	if sc := call.Call.StaticCallee(); sc != nil {
+		if sc == target {
+			return true
+		}
+		if !fnInModule(sc) {
+			return false
+		}
+		roots = []*ssa.Function{sc}
+	} else {
+		return false
+	}
+	reach, _ := p.MG().Reach(roots, func(g *ssa.Function) bool { return fnPkgPath(g) != fnPkgPath(target) })
+	_, ok := reach[target]
+	return ok
+}
+
+// outsideEncodeLock: "" when every call chain that reaches tgt passes through a call made by
+// one of the serializers while encodeMu is held; else a description of an offending chain.
+func (c *Check) outsideEncodeLock(tgt *ssa.Function, sers []*ssa.Function) string {
+	p := c.P
+	isSer := map[*ssa.Function]bool{}
+	locked := map[*ssa.Function]bool{} // callees of calls made by a serializer under the lock
+	unlocked := map[*ssa.Function]bool{}
+	for _, ser := range sers {
+		isSer[ser] = true
+		for _, b := range ser.Blocks {
+			for _, ins := range b.Instrs {
+				call, ok := ins.(*ssa.Call)
+				if !ok || call.Call.StaticCallee() == nil || !fnInModule(call.Call.StaticCallee()) {
+					continue
+				}
+				held := false
+				for id := range heldAt(ser, call) {
+					if strings.HasSuffix(id, ".encodeMu") {
+						held = true
+					}
+				}
+				if held {
+					locked[call.Call.StaticCallee()] = true
+				} else {
+					unlocked[call.Call.StaticCallee()] = true
+				}
+			}
 		}
 	}
+	callers := map[*ssa.Function][]*ssa.Function{}
+	for f := range p.AllFns {
+		if !fnInModule(f) || f.Blocks == nil {
+			continue
+		}
+		for _, callee := range p.MG().Callees(f) {
+			callers[callee] = append(callers[callee], f)
+		}
+	}
+	bad := ""
+	seen := map[*ssa.Function]bool{}
+	var up func(f *ssa.Function)
+	up = func(f *ssa.Function) {
+		if seen[f] || bad != "" {
+			return
+		}
+		seen[f] = true
+		if locked[f] && !unlocked[f] {
+			// reached from the serializer under the lock; other callers are still followed
+		}
+		cs := callers[f]
+		if len(cs) == 0 && !locked[f] {
+			bad = fnName(tgt) + " is reachable from " + fnName(f) + ", which no serializer calls under the lock"
+			return
+		}
+		for _, cf := range cs {
+			if isSer[cf] {
+				if unlocked[f] {
+					bad = fnName(f) + " is called from " + fnName(cf) + " outside its critical section"
+				}
+				continue
+			}
+			up(cf)
+		}
+	}
+	up(tgt)
+	return bad
 }
 
 // wireConstants (R5)
@@ -1190,6 +1326,15 @@ func (c *Check) wireConstants() {
 		}
 		for _, b := range f.Blocks {
 			for _, ins := range b.Instrs {
+				if call, ok := ins.(*ssa.Call); ok {
+					if bi, ok := call.Call.Value.(*ssa.Builtin); ok && bi.Name() == "min" {
+						for _, a := range call.Call.Args {
+							if k, ok := constInt(a); ok {
+								out["min"] = append(out["min"], k)
+							}
+						}
+					}
+				}
 				bo, ok := ins.(*ssa.BinOp)
 				if !ok {
 					continue
@@ -1218,7 +1363,8 @@ func (c *Check) wireConstants() {
 	} else {
 		encOK := has(enc, ">=", 128) && has(enc, "|", 128) && has(enc, ">>", 7) || has(enc, "<", 128) && has(enc, "|", 128) && has(enc, ">>", 7)
 		// the group limit may be written as a bail-out (i >= 10) or as a loop bound (i < 10)
-		limit := has(dec, ">=", 10) || has(dec, "<", 10) || has(dec, ">", 9) || has(dec, "<=", 9) || has(dec, "==", 10)
+		// (i < 10), or as a cap on the bytes looked at (min(len(data), 10), if n > 10 { n = 10 })
+		limit := has(dec, ">=", 10) || has(dec, "<", 10) || has(dec, ">", 9) || has(dec, "<=", 9) || has(dec, "==", 10) || has(dec, ">", 10) || has(dec, "min", 10)
 		decOK := has(dec, "&", 127) && has(dec, "&", 128) && (has(dec, "*", 7) || has(dec, "+", 7)) && limit
 		if encOK {
 			c.ok("C01-R5", "varint:encode", p.relFile(ef.Pos()), "encodeVarint emits 7-bit groups with continuation bit 0x80", "constants: threshold 128, |0x80, >>7")
@@ -1255,7 +1401,7 @@ func (c *Check) wireConstants() {
 			continue
 		}
 		got := map[int64]bool{}
-		for _, b := range f.Blocks {
+		for _, b := range helperBlocks(f, 2) {
 			for _, ins := range b.Instrs {
 				if call, ok := ins.(*ssa.Call); ok && call.Call.StaticCallee() != nil && call.Call.StaticCallee().Name() == "checkType" {
 					if k, ok := constInt(call.Call.Args[1]); ok {
@@ -1282,4 +1428,17 @@ func (c *Check) wireConstants() {
 			c.bad("C01-R5", key, p.relFile(f.Pos()), fmt.Sprintf("%s does not check wire type %d (checked: %v)", d.fn, d.typ, got))
 		}
 	}
+}
+
+// isMessageStruct: t is (a pointer to) one of the profile's message structs, i.e. a named
+// struct with an encode method.
+func isMessageStruct(p *Program, t types.Type) bool {
+	if pt, ok := t.Underlying().(*types.Pointer); ok {
+		t = pt.Elem()
+	}
+	named, ok := t.(*types.Named)
+	if !ok {
+		return false
+	}
+	return methodOf(p, named, "encode") != nil
 }
